@@ -466,7 +466,7 @@ def gen_var(r, spec):
         "sid": {"cooperative": r.random() < 0.2, "prediction": r.choice([None, None, [1, 2]])},
         "pos_list": r.random() < 0.2,                 # state positions given as Python lists
         "geo_default": r.random() < 0.05,             # GeoTransformation() with every argument left at its default
-        "np_state": r.random() < 0.05,                 # exact state values as np.float32 (is_real_number accepts them)
+        "np_state": r.random() < 0.05,                 # exact state values as np.float32 (orientations kept within [-2 pi, 2 pi] after rounding)
         "hist": [op for op in hist_ops if r.random() < 0.18],
         "hseed": r.randrange(10 ** 6),
         "writer": {
@@ -540,7 +540,11 @@ def build(spec):
             a, b = v["iv"]
             return AngleInterval(N(a), N(b)) if angle_iv else Interval(N(a), N(b))
         if V.get("np_state") and isinstance(v, float) and 1e-30 < abs(v) < 1e30:
-            return np.float32(v)
+            x = np.float32(v)
+            # rounding to float32 must not leave the range of valid orientations: np.float32(2 pi) > 2 pi (is_valid_orientation)
+            if angle_iv and abs(float(x)) > 2 * math.pi:
+                x = np.nextafter(x, np.float32(0))
+            return x
         return N(v)
 
     def state(s, cls=None, as_list=False):
